@@ -66,6 +66,11 @@ func genOps(c *vf.Ctx, caseNo int) []string {
 		{"lin", "join-nonvoter", "barrier", "barrier", "snapshot-trunc3"},
 		{"lin", "join-voter", "remove", "barrier", "snapshot-trunc3"},
 		{"write", "lin", "barrier", "snapshot-trunc1", "barrier"},
+		// long runs of entries that never reach the FSM, with no write, strong read
+		// or leader change in between
+		{"lin", "barrier", "barrier", "barrier", "barrier", "barrier", "barrier", "barrier"},
+		{"strong", "join-nonvoter", "barrier", "remove", "barrier", "barrier", "join-nonvoter", "barrier", "remove"},
+		{"lin", "join-voter", "join-nonvoter", "barrier", "remove", "barrier", "remove", "barrier", "barrier"},
 	}
 	if caseNo%3 == 1 {
 		ops = append(ops, motifs[(caseNo/3)%len(motifs)]...)
@@ -74,14 +79,14 @@ func genOps(c *vf.Ctx, caseNo int) []string {
 }
 
 func run(c *vf.Ctx) {
-	c.Rule("history = seeded sequence of 2-7 ops from {write, strong read, linearizable read, join voter/non-voter, remove, stepdown, barrier, user snapshot, user snapshot truncating the log to 1-2 trailing entries, noop, log truncation + snapshot install on a new voter + leadership transfer to it} on a fresh healthy in-process cluster (1 node, growing to at most 3), followed by 3 linearizable reads 50 ms apart over HTTP on the current leader with the default timeout and no write in between; thorough also probes after every prefix. non-trivial = history whose last committed entry before the reads is not a plain write; distinct by op sequence")
+	c.Rule("history = seeded sequence of 2-7 ops (every third history followed by one of 9 directed motifs: a read that pins the term, then 1-8 consecutive entries that never reach the FSM - barriers, joins, removals - some followed by a log-truncating snapshot) from {write, strong read, linearizable read, join voter/non-voter, remove, stepdown, barrier, user snapshot, user snapshot truncating the log to 1-2 trailing entries, noop, log truncation + snapshot install on a new voter + leadership transfer to it} on a fresh healthy in-process cluster (1 node, growing to at most 3), followed by 3 linearizable reads 50 ms apart over HTTP on the current leader with the default timeout and no write in between; thorough also probes after every prefix. non-trivial = history whose last committed entry before the reads is not a plain write; distinct by op sequence")
 	c.Assume("healthy network (faultnet with no faults); reads go to the node that reports itself leader")
 	c.Assume("a read failing with 'not leader' right after a stepdown is retried on the new leader (leadership moved, not a C38 failure)")
 	if c.ReplayFile != "" {
 		replay(c)
 		return
 	}
-	nHist := c.N(24, 400)
+	nHist := c.N(27, 400)
 	workers := 8
 	per := (nHist + workers - 1) / workers
 	type job struct{ lo, hi int }
